@@ -188,25 +188,61 @@ def hmc_progress(ctx, nc, nd):
               expected='RunStats computed by tracker.stats(<the returned sample>)', found='%d stats call(s)' % len(st), sp=sp, why='diagnostics must equal those computed from the returned draws')
 
 
-def reporter_signature(ev, rl):
-    """canonical summary of the reporter's polling loop and the loops inside it: per loop (kind, depth, trip count, exits,
-    next-value of every carried place), with loop / iteration / channel numbering replaced by order of appearance"""
+def reporter_signature(ev, rl, fkey=None):
+    """protocol summary of a reporter: for the three places that decide termination -- the latest-message table (initialised with
+    vec![None; n]), the finished counter (the one in the exit test) and the activation counter(s) (places stepped by one inside the
+    polling loop) -- the set of their update terms over all loops of the reporter, alpha-renamed (loop numbers, variable names and
+    the way the chains are reached do not matter).  Display state (bars, messages, the list of active bars, progress sums) is not part
+    of it, so restructuring the display code of one copy is invisible; a change to how messages are stored, how completion is
+    counted or how chains are activated in one copy only is not."""
     loops = [rl] + [ls for ls in ev.vf.loops if rl.uid in ls.ctx]
-    ids = {}
-
-    def canon(txt):
-        def rep(m):
-            key = (m.group(1), m.group(2))
-            if key not in ids:
-                ids[key] = len([k for k in ids if k[0] == m.group(1)])
-            return '%s%d' % (m.group(1), ids[key])
-        txt = txt.replace('chains_mut(self)', 'CHAINS').replace('.chains(self)', 'CHAINS').replace('self.chains', 'CHAINS')      # the two runners reach their chains differently
-        return re.sub(r'\b(lh|lx|it|loop|acc|channel#|lhc|k#\w*?)(\d+)', rep, txt)
-    out = []
+    roles = {}
+    for k in rl.lh:
+        i0 = rl.init.get(k)
+        if isinstance(i0, T.Tm) and T.is_app(i0, 'repeat'):
+            roles[keyrepr(k)] = 'LATEST'
+    if fkey is not None:
+        roles[keyrepr(fkey)] = 'FINISHED'
     for ls in loops:
-        nxt = sorted((canon(keyrepr(k)), canon(show(ls.next[k])) if isinstance(ls.next[k], T.Tm) else str(type(ls.next[k]).__name__)) for k in ls.lh)
-        out.append((ls.kind, len(ls.ctx), canon(show(ls.n)) if ls.n is not None else None, tuple(canon(show(e[2])) for e in ls.exits), tuple(nxt)))
-    return out
+        for k in ls.lh:
+            nx = ls.next.get(k)
+            if keyrepr(k) in roles or not isinstance(nx, T.Tm):
+                continue
+            inc = T.add(ls.lh[k], T.ONE)
+            if nx is inc or (nx[0] == 'ite' and nx[2] is inc and nx[3] is ls.lh[k]) and any(keyrepr(k2) == keyrepr(k) for k2 in rl.lh):
+                if isinstance(rl.init.get([k2 for k2 in rl.lh if keyrepr(k2) == keyrepr(k)][0]), T.Tm) and not T.is_num(rl.init[[k2 for k2 in rl.lh if keyrepr(k2) == keyrepr(k)][0]]):
+                    roles[keyrepr(k)] = 'ACTIVATION'
+
+    depth = {ls.uid: len(ls.ctx) - len(rl.ctx) for ls in loops}
+
+    def canon_term(t):
+        """rename at TERM level (so that the algebra's own ordering of conjuncts / monomials is the same in both copies):
+        loop-numbered symbols become depth-numbered, role places get their role name, channels lose their number"""
+        m = {}
+        for x in T.subterms(t):
+            if x[0] == 'sym':
+                mm = re.match(r'l([hx])(\d+):(.*)$', x[1])
+                if mm:
+                    nm = roles.get(mm.group(3), mm.group(3))
+                    m[x] = T.sym('l%s@%d:%s' % (mm.group(1), depth.get(int(mm.group(2)), 99), nm))
+                    continue
+                mm = re.match(r'it(\d+)$', x[1])
+                if mm:
+                    m[x] = T.sym('it@%d' % depth.get(int(mm.group(1)), 99))
+            elif x[0] == 'app' and re.match(r'channel#\d+$', x[1]):
+                m[x] = T.app('channel#')
+            elif x[0] == 'app' and x[1] in ('chains_mut', '.chains') and len(x[2]) == 1:
+                m[x] = T.sym('CHAINS')
+        return T.subst(t, m) if m else t
+    out = {r: set() for r in ('LATEST', 'FINISHED', 'ACTIVATION')}
+    for ls in loops:
+        for k in ls.lh:
+            r = roles.get(keyrepr(k))
+            nx = ls.next.get(k)
+            if r is None or not isinstance(nx, T.Tm) or nx is ls.lh[k] or (nx[0] == 'sym' and nx[1].startswith('lx')):
+                continue
+            out[r].add(show(canon_term(nx)))
+    return [(r, tuple(sorted(v))) for r, v in sorted(out.items())]
 
 
 def find_spawn_closure(ctx, body):
@@ -245,7 +281,6 @@ def reporters(ctx, nc, nd):
             ctx.unknown('C10.exit.' + tag, A, 'reporter-loop', why='expected one polling loop in the reporter (found %d)' % len(owner), sp=b['sp'])
             continue
         rl = owner[0]
-        sigs[tag] = reporter_signature(ev, rl)
         chans = ev.events(lambda e: e.op == 'channel')
         # number of channels: trip count of the loop that creates them
         nch = None
@@ -288,11 +323,15 @@ def reporters(ctx, nc, nd):
                         continue
                     nx = ls.next[k]
                     # ite(is:Some(s), ite(total - s.n == 0, 1 + lh, lh), lh)
-                    if nx[0] == 'ite' and nx[3] is ls.lh[k] and nx[2][0] == 'ite' and nx[2][2] is T.add(ls.lh[k], T.ONE) and nx[2][3] is ls.lh[k]:
-                        c = nx[2][1]
-                        stats_n = [x for x in T.subterms(c) if T.is_app(x, '.n')]
-                        if stats_n and c is T.cmp('eq', stats_n[0], total):
+                    # ite(is:Some(s) && [s.n == total], 1 + lh, lh)   (flattened guard; the nested spelling normalises to it)
+                    if nx[0] == 'ite' and nx[3] is ls.lh[k] and nx[2] is T.add(ls.lh[k], T.ONE):
+                        cs = conjuncts(nx[1])
+                        eqs = [c for c in cs if c[0] == 'cmp' and c[1] == 'eq']
+                        rest = [c for c in cs if c not in eqs]
+                        stats_n = [x for c in eqs for x in T.subterms(c) if T.is_app(x, '.n')]
+                        if len(eqs) == 1 and stats_n and eqs[0] is T.cmp('eq', stats_n[0], total) and all(T.is_app(c) and c[1].startswith('is:') for c in rest):
                             okfin = True
+        sigs[tag] = reporter_signature(ev, rl, fkey)
         ctx.check('C10.finished_guard.' + tag, A, 'finished-guard', okfin, expected='n_finished += 1 exactly when the most recent stats of an active chain have n == n_collect + n_discard',
                   found='counter %s' % (keyrepr(fkey) if fkey else 'not identified'), sp=rl.sp, why='completion accounting must match the final message sent by the workers')
     if len(sigs) == 2:
@@ -304,8 +343,8 @@ def reporters(ctx, nc, nd):
                 d = (i, x, y)
                 break
         ctx.check('C10.reporters_equal', 'ChainRunner::run_progress ~ NUTS::run_progress', 'reporter', d is None,
-                  expected='the two reporters have the same normal form: same polling / receive / accounting / activation loops (trip counts, exits, next-values of every carried place), display calls erased',
-                  found='equal (%d loop summaries)' % len(a) if d is None else 'first difference in loop summary %d: %s vs %s' % (d[0], str(d[1])[:200], str(d[2])[:200]),
+                  expected='the two reporters update the latest-message table, the finished counter and the activation counter in the same way (update terms of these places over all loops, alpha-renamed); display state is not compared',
+                  found='equal: %s' % ', '.join('%s %d update(s)' % (r, len(v)) for r, v in a) if d is None else 'difference for %s: %s vs %s' % (d[1][0] if d[1] else d[2][0], str(d[1])[:300], str(d[2])[:300]),
                   why='the protocol is implemented twice; a change to one copy only is reported (compared on value-flow normal forms, so helper extraction or re-binding in one copy is invisible)')
 
 
